@@ -20,7 +20,7 @@ ASSUMPTIONS = [
 ]
 TRUSTED = ["correspondence harness harness/h_persist.c + tools/lib/vf.py (result code, fetched data, complete medium image after every operation, "
            "region containment of every access; the (address, length) sequence of accesses is compared with the model only)"]
-DESIGN_REF = "DESIGN.md section 8, C10"
+DESIGN_REF = "DESIGN.md section 0.2 (as built) and section 8, C10"
 TECHNIQUE = "Lean 4 proofs over a medium/callback model (chunked checksum = checksum of the image for any buffer size by induction; store/validate/fetch round trip; bounds) + differential correspondence with a logging medium"
 LEVEL_TEXT = ("Machine-checked proof over the Lean model of persistent-storage.c: for every data size, placement, checksum width, streamable checksum function and "
               "auxiliary buffer size the chunked checksum equals the function applied to the whole data image; after a successful full or partial store validation "
